@@ -38,6 +38,22 @@ def run(ctx, replay=None):
                 ctx.count('rejected', type(e).__name__)
                 ctx.case_done(s, False)
                 continue
+            # cross-validation after a setting was changed on the living instance = cross-validation of a fresh variogram
+            if rng.random() < 0.5 and not s.get('mkw'):
+                try:
+                    Vl = kc.make_variogram(s)
+                    first = Vl.cross_validate(n=s['cv_n'], metric='rmse', seed=s['cv_seed'])
+                    other = rng.choice([m_ for m_ in ('spherical', 'exponential', 'gaussian') if m_ != s['model']])
+                    Vl.model = other
+                    second = Vl.cross_validate(n=s['cv_n'], metric='rmse', seed=s['cv_seed'])
+                    s2 = dict(s, model=other, vkw={k_: v_ for k_, v_ in s['vkw'].items() if k_ != 'fit_shape'})
+                    fresh = kc.make_variogram(s2).cross_validate(n=s['cv_n'], metric='rmse', seed=s['cv_seed'])
+                    if not gen.close(second, fresh, 1e-9, 1e-12):
+                        ctx.problem('oracle', 'cross-validation after assigning another model on the instance is not the score of that model', s,
+                                    {'model_before': s['model'], 'model_after': other, 'score_before': float(first), 'score_after': float(second), 'fresh': float(fresh)}, {'what': 'stale-score'})
+                    ctx.tests['in_place_model_changes'] = ctx.tests.get('in_place_model_changes', 0) + 1
+                except Exception as e:
+                    ctx.count('inplace_cv_rejected', type(e).__name__)
             ok_any = False
             combos = [(s['cv_n'], s['cv_seed'], m) for m in ('rmse', 'mse', 'mae')] + [(max(3, N // 2), 0, 'rmse')]
             for cv_n, cv_seed, metric in combos:
@@ -68,7 +84,8 @@ def run(ctx, replay=None):
                     # the kriging instance removes duplicated coordinates itself
                     _, keep = np.unique(cdel, axis=0, return_index=True)
                     keep = np.sort(keep)
-                    bz, bs, st = kc.brute_force(V, s, coords[i], coords=cdel[keep], values=vdel[keep])
+                    # the jackknife always kriges with the default solver (explicit inverse): its conditioning threshold applies
+                    bz, bs, st = kc.brute_force(V, dict(s, solver='inv'), coords[i], coords=cdel[keep], values=vdel[keep])
                     if st in ('tie', 'illcond'):
                         tie = True
                         break
